@@ -643,7 +643,7 @@ def run(run):
                 streams.append(sc_random(run, rng, sender, start, 600 if thorough else 150, 45, 0.3, 0.2))
             if thorough:
                 streams.append(sc_random(run, rng, sender, start, 1500, 300, 0.4, 0.3))
-    handler_worlds(run, rng, 160 if thorough else 12, 80 if thorough else 50)
+    handler_worlds(run, rng, 96 if thorough else 12, 80 if thorough else 50)
     run.rules.append(HANDLER_RULE)
     copies = sum(s.copies for s in streams)
     dup_in = sum(1 for s in streams for f in s.gp.flags if f)
